@@ -20,7 +20,13 @@ ASSUMPTIONS = [
     "E is evaluated by the verified interval evaluator (encl ops, Props/C12) for pi, exp, log, sqrt at dyadic points; "
     "interval arguments use the monotonicity of exp, log, sqrt (harness-side, exact rational interval arithmetic); "
     "strings outside the grammar (ints, + - * / **, sqrt, exp, log, pi, e) are undecided",
-    "completeness (a planted relation is found when the precision suffices) is sampled and reported as information only",
+    "completeness ('when an exact small relation exists and the precision suffices, it is found') is DECIDED on the class where it is "
+    "unambiguous: a primitive planted relation with all |c_k| in [maxcoeff/2, maxcoeff), n = 3..5, among 1, square roots of distinct "
+    "primes, pi, e, log 2 (linearly independent over Q, conjecturally for the transcendental ones), last entry solved from the relation, "
+    "precision >= 3*n*log2(maxcoeff) + 100 bits, default tolerance, maxsteps = 10^6; the planted vector itself must pass the verified "
+    "acceptance checker on the rounded inputs (else the case is not counted); a None result is a failing input "
+    "(site identification.pslq[completeness]); any returned vector that passes the acceptance checker is accepted (a vector different "
+    "from +-planted is counted separately); a timeout is no result, never a pass; outside this class completeness stays information",
     "precisions 53..300 bits: pslq raises ValueError below 53 bits, so the 30..52-bit part of the quantifier is empty",
 ]
 
@@ -47,6 +53,9 @@ def run(ctx):
         tasks.append(g.findpoly_task())
     for _ in range(n // 2):
         tasks.append(g.identify_task())
+    ncomplete = 60 if ctx.quick else 2000
+    for _ in range(ncomplete):
+        tasks.append(g.pslq_complete_task())
     if ctx.replay:
         rp = json.load(open(ctx.replay))
         t = ((rp.get("failing_input") or {}).get("input") or {}).get("task")
@@ -56,6 +65,8 @@ def run(ctx):
     failing, dis = [], []
     stats = {"pslq": {}, "findpoly": {}, "identify": {}}
     info = {"planted_not_found": [], "planted_other_relation": 0, "planted_found": 0, "planted_expected": 0}
+    comp = {"cases": 0, "found_planted": 0, "found_other_valid": 0, "none": 0, "timeout": 0, "exception": 0,
+            "planted_not_admissible": 0, "returned_invalid": 0}
     samples = []
     strict, strict_examples = {}, []
     evaluations = 0
@@ -70,9 +81,22 @@ def run(ctx):
         res = rel_ops.run_tasks(part, par=4)
         lines, meta = [], []
         ident = []
+        comp_lines, comp_meta = [], []
         for t, a in zip(part, res):
             kind = t["kind"]
             evaluations += 1
+            if t.get("complete"):
+                comp["cases"] += 1
+                if a.get("timeout"):
+                    comp["timeout"] += 1
+                elif a.get("exc"):
+                    comp["exception"] += 1
+                    failing.append({"site": "identification.pslq[completeness]", "what": "pslq raised %s: %s on a planted relation" %
+                                    (a["exc"], a.get("msg")), "input": {"task": {k: t[k] for k in t if k != "id"}}})
+                else:
+                    # is the planted vector admissible for the ROUNDED inputs?  (verified acceptance checker)
+                    comp_lines.append(rel_ops.pslq_line(dict(a, result=[str(v) for v in t["plant"]])))
+                    comp_meta.append((t, a))
             if a.get("timeout"):
                 bump(kind, "timeout"); continue
             if a.get("exc"):
@@ -103,9 +127,33 @@ def run(ctx):
             else:
                 for s in r:
                     ident.append((t, a, s))
+        # completeness clause (decided): planted vector admissible and pslq returned None -> failing input
+        cans = Driver().ask(comp_lines) if comp_lines else []
+        for (t, a), v in zip(comp_meta, cans):
+            r = a.get("result")
+            if v != "ok":
+                comp["planted_not_admissible"] += 1
+                continue
+            if r is None:
+                comp["none"] += 1
+                c = [int(x) for x in t["plant"]]
+                failing.append({"site": "identification.pslq[completeness]",
+                                "what": "pslq returned None although the planted vector %s (max|c_k| = %d < maxcoeff = %d, Euclidean norm "
+                                        "%.1f) passes the acceptance test |sum c_k x_k| <= tol*||x||_2 on the very inputs given; "
+                                        "mp.prec = %d >= 3*n*log2(maxcoeff)+100" %
+                                        (c, max(abs(x) for x in c), a["maxcoeff"], sum(x * x for x in c) ** 0.5, int(t["prec"])),
+                                "input": {"task": {k: t[k] for k in t if k != "id"}, "x": a["xs"], "tol": a["tol"],
+                                          "maxcoeff": a["maxcoeff"], "planted": c, "result": None}})
+            elif _norm_rel(r) == _norm_rel(t["plant"]):
+                comp["found_planted"] += 1
+            else:
+                comp["found_other_valid"] += 1        # validity is decided below with every other returned vector
         ans = Driver().ask(lines)
         for (t, a), v in zip(meta, ans):
             bump(t["kind"], "check:" + v)
+            if t.get("complete") and v == "violates":
+                comp["returned_invalid"] += 1
+                comp["found_other_valid"] -= 1
             if len(samples) < 6 and v == "ok" and t["class"] in ("planted", "polyroot", "near-relation"):
                 samples.append({"task": {k: t[k] for k in t if k != "id"}, "result": a["result"], "verdict": v})
             if v == "violates":
@@ -167,7 +215,8 @@ def run(ctx):
         "rule": "pslq: planted relations (x_n solved from a random small integer vector at 3*prec+200 bits, then all entries "
                 "rounded to the working precision), planted relations with coefficients above maxcoeff, relations perturbed by "
                 "tol*2^j (j=-6..6) around the acceptance threshold, generic non-relations (also with loose tolerances so that "
-                "spurious vectors are returned), combinations of pi/e/log/sqrt, scaled by 2^+-k; findpoly: rationals, quadratic surds, "
+                "spurious vectors are returned), combinations of pi/e/log/sqrt, scaled by 2^+-k; completeness class: primitive planted "
+                "relations with all |c_k| in [maxcoeff/2, maxcoeff), n=3..5, precision >= 3n*log2(maxcoeff)+100 (a None is a failing input); findpoly: rationals, quadratic surds, "
                 "n-th roots, sqrt2+sqrt3, real roots of random integer polynomials of degree 2..6, transcendental numbers, requested "
                 "degree true degree -1/0/+1; identify: 15 families over the constants pi, e, log(2), log(3), sqrt(2); a case is "
                 "non-trivial and distinct when the real code RETURNED a result (keyed by exact inputs and result); every returned "
@@ -179,6 +228,7 @@ def run(ctx):
         "undecided": und,
         "identify_error_relative_to_tol_times_max1x": strict,
         "identify_beyond_strict_tolerance_examples": strict_examples,
+        "completeness_decided": comp,
         "completeness_information": {k: (v if not isinstance(v, list) else {"count": len(v), "examples": v[:5]}) for k, v in info.items()},
         "input_distribution": g.hist,
         "traces_validated_against_impl": evaluations,
